@@ -33,6 +33,18 @@ def cfg_fn(r, i):
     return "\n".join(lines) + "\n", "nlmax%d" % n
 
 
+def ask_nlmax(R, m):
+    """worker-thread question to the extracted model: K_nlmax on the dumped final chunk list"""
+    vals = rc.cfg_values(R.case.cfg_path, R.case.cfg_text)
+    try:
+        N = int(vals.get("nl_max", "0"))
+    except ValueError:
+        N = 0
+    if N > 0 and R.recs is not None:
+        from .. import renderrun
+        R.nlmax_ans = m.ask("nlmax %d %s" % (N, " ".join(renderrun.model_chunks(R.fin, R.recs))))
+
+
 def oracle(R, findings):
     vals = rc.cfg_values(R.case.cfg_path, R.case.cfg_text)
 
@@ -70,6 +82,13 @@ def oracle(R, findings):
             if run > N:
                 ctx = rc.dumps.text_str(fin[i - 1]) if i else "<start>"
                 findings.append(("nlmax|%s|%s" % (prev_t, next_t), "nl_max=%d but %d consecutive line breaks after %r (%s) before %s" % (N, run, ctx[:30], prev_t, next_t)))
+        # the verified checker (Model/NlMax.v nlmax_ok, extracted): same contract, sound by C20_checked_lists_have_bounded_runs
+        ans = getattr(R, "nlmax_ans", None)
+        if ans is not None:
+            if ans.startswith("ERR"):
+                findings.append(("nlmax-checker-error", "the extracted K_nlmax checker failed: %s" % ans[:120]))
+            elif ans.split()[0] == "0" and not any(f[0].startswith("nlmax") for f in findings):
+                findings.append(("nlmax-checker", "nl_max=%d: the verified checker K_nlmax (NlMax.nlmax_ok) rejects the final chunk list" % N))
         # the same on the bytes
         k, runlen, n = 0, 0, len(newline)
         worst = 0
@@ -158,7 +177,7 @@ def run(rep, build, tier, seed):
                         if nm and mn is not None and mn > 2:
                             continue
                         cases.append(rc.Case("edge:%s:%s:%s:pre%d:post%d:%s" % (which, v, mn, len(pre), len(post), nm.strip()), "C", cfg + nm, pre + core + post))
-    corr = rc.explore(rep, cases, oracle, tier, "render")
+    corr = rc.explore(rep, cases, oracle, tier, "render", extra=ask_nlmax)
     rep.sample({"generated_config_example": cases[0].cfg_text, "input_head": cases[0].data[:160].decode("latin1")})
     return rc.finish(rep, build, "C20", corr, "correspondence Model/Render.v <-> output.cpp (emitted code points)",
                      "Theorem of Properties_C20.v re-checked by make; %d runs: render correspondence, K_nlmax on the final chunk list, byte-level runs, "
@@ -166,4 +185,4 @@ def run(rep, build, tier, seed):
 
 
 def replay(rp, build):
-    return rc.replay_format(rp, oracle)
+    return rc.replay_format(rp, oracle, extra=ask_nlmax)
